@@ -32,7 +32,7 @@ def side(s):
 def run(ctx):
     ctx.clause = ("both operands of a comparison are read under the same configuration: every context option, "
                   "suppression, loader call and post-load adjustment applied to operand 1 is applied to operand 2")
-    ctx.rules = ["R-TWINLOAD"]
+    ctx.rules = ["R-TWINLOAD", "R-QNREFRESH"]
     n_funcs = n_events = 0
     for unit, fname in SITES:
         P = ctx.program([unit])
@@ -89,3 +89,5 @@ def run(ctx):
     ctx.floor("R-TWINLOAD", "configuration events", n_events, 40)
     ctx.assume("that identical loads give identical IR, and that identical IR compares clean (reflexivity of equals / "
                "canonicalisation over cyclic type graphs), is runtime behaviour and is not decided")
+    from rules import qnrefresh_rule
+    qnrefresh_rule.check(ctx, ctx.program(qnrefresh_rule.UNITS))
